@@ -569,3 +569,57 @@ def k_repair(p):
 
 
 KINDS.update({"repair": k_repair})
+
+
+def k_repr(p):
+    """C14: the three graph representations on a concrete arc subset."""
+    import dsw
+    rows = p["acc"]
+    acc = np.array(rows, dtype=int)
+    N = len(rows)
+    k = int(round(np.log(N) / np.log(4)))
+    live = [v for v in range(N) if any(x >= 0 for x in rows[v])]
+    lm, ex = call(dsw.accessor_to_latter_map, acc.copy())
+    if ex:
+        return True, "accessor_to_latter_map raised %s" % ex
+    exp_lm = {v: [x for x in rows[v] if x >= 0] for v in live}
+    got_lm = {int(a): [int(x) for x in b] for a, b in lm.items()}
+    if got_lm != exp_lm:
+        return True, "latter map %s != expected %s" % (got_lm, exp_lm)
+    back, ex = call(dsw.latter_map_to_accessor, lm, k)
+    if ex or back.tolist() != rows:
+        return True, "accessor -> latter map -> accessor differs (%s)" % ex
+    mx, ex = call(dsw.accessor_to_adjacency_matrix, acc.copy())
+    if ex:
+        return True, "accessor_to_adjacency_matrix raised %s" % ex
+    exp_m = [[1 if v in [x for x in rows[u] if x >= 0] else 0 for v in range(N)] for u in range(N)]
+    if mx.tolist() != exp_m:
+        return True, "adjacency matrix differs from the arc set"
+    back, ex = call(dsw.adjacency_matrix_to_accessor, mx)
+    if ex or back.tolist() != rows:
+        return True, "accessor -> matrix -> accessor differs (%s)" % ex
+    vs, ex = call(dsw.obtain_vertices, acc.copy())
+    if ex or [int(x) for x in vs] != live:
+        return True, "obtain_vertices = %s, vertices with arcs %s" % (vs, live)
+    for root in p.get("roots", [0]):
+        for d in range(0, int(p.get("depth", 3)) + 1):
+            cur = [root]
+            for _ in range(d):
+                cur = [x for u in cur for x in rows[u] if x >= 0]
+            a, ex1 = call(dsw.obtain_leaf_vertices, root, d, accessor=acc.copy())
+            b, ex2 = call(dsw.obtain_leaf_vertices, root, d, latter_map=lm)
+            if ex1 or ex2:
+                return True, "obtain_leaf_vertices raised %s / %s" % (ex1, ex2)
+            if sorted(int(x) for x in a) != sorted(cur) or sorted(int(x) for x in b) != sorted(cur):
+                return True, "leaf query root=%d depth=%d: accessor %s, latter map %s, walk end points %s" % (root, d, sorted(int(x) for x in a), sorted(int(x) for x in b), sorted(cur))
+    if p.get("illegal") is not None:
+        u, v = p["illegal"]
+        bad = np.array(exp_m, dtype=int)
+        bad[u][v] = 1
+        r, ex = call(dsw.adjacency_matrix_to_accessor, bad)
+        if ex is None or not ex.startswith("ValueError"):
+            return True, "matrix with the illegal arc %d -> %d was not rejected with ValueError (%s)" % (u, v, ex)
+    return False, "ok"
+
+
+KINDS.update({"repr": k_repr})
